@@ -262,6 +262,24 @@ def unwrap_matches(exc, raised):
     return False
 
 
+def first_outcome_oracle(obs, x):
+    """The first failure recorded is the one reported: once a user has seen future.done() == True ('done.seen', logged by the
+    done-poller) the outcome is fixed, so the exception result() raises in the end cannot be one that was only RAISED after that."""
+    out = []
+    seen = [e['n'] for e in obs.events if e['kind'] == 'done.seen' and e.get('label') == x.label]
+    if not seen or x.outcome != 'raised':
+        return out
+    tags = find_tags(x.exc)
+    matched = [r for r in obs.world.director.raised if r['tag'] in tags]
+    if matched and all(r['n'] > seen[0] for r in matched):
+        earlier = [r['tag'] for r in obs.world.director.raised if r['n'] < seen[0] and r['key'].startswith(x.label + '/')]
+        out.append(V(f'{x.label}: future.done() was already True when {matched[0]["tag"]} was raised at {matched[0]["key"]}, yet that is what '
+                     f'result() reports ({x.exc!r}); faults raised before: {earlier}, cancel issued before: '
+                     f'{bool([e for e in obs.events if e["kind"] == "cancel.begin" and e["n"] < seen[0]])}', **base_mech(obs, x),
+                     sym='outcome-replaced-after-done', fault_site=re.sub(r'[#:].*$', '', matched[0]['key'].split('/', 1)[1])))
+    return out
+
+
 def outcome_oracle(obs, x):
     out = []
     mech = base_mech(obs, x)
@@ -697,6 +715,16 @@ def cancel_oracle(obs, x, how, not_started=False, targeted=True):
         elif not unwrap_matches(exc, mine):
             out.append(V(f'{x.label}: cancelled through {how} but result() raised {exc!r}, neither the cancellation error nor an '
                          f'injected fault', **mech, sym='foreign-exception'))
+        else:
+            # a failure may have been recorded before the cancel took effect - but not one that was only raised after the cancel
+            # call had returned: by then the cancellation (or an earlier failure) was the recorded outcome
+            ce0 = [e['n'] for e in obs.events if e['kind'] == 'cancel.end']
+            tags = find_tags(exc)
+            matched = [r for r in mine if r['tag'] in tags]
+            if targeted and ce0 and matched and all(r['n'] > ce0[0] for r in matched) and not finished_before:
+                out.append(V(f'{x.label}: the cancel call ({how}) had returned before {matched[0]["tag"]} was raised at {matched[0]["key"]}, yet '
+                             f'result() reports that later failure ({exc!r}) instead of the cancellation', **mech,
+                             sym='cancel-replaced-by-later-failure'))
     elif x.outcome == 'success':
         if not_started:
             out.append(V(f'{x.label}: had not started when it was cancelled, yet reported success', **mech, sym='not-started-success'))
@@ -757,6 +785,18 @@ def cancel_oracle(obs, x, how, not_started=False, targeted=True):
         if len(worst) > 1:
             out.append(V(f'{x.label}: {len(worst)} further reads ({sum(e["nbytes"] for e in worst)} bytes) of the body of {worst[0]["key"]} were '
                          f'delivered to the transport after the cancel call ({how}) had returned', **mech, sym='body-sent-after-cancel',
+                         bandwidth_limited=bool(getattr(obs.config, 'max_bandwidth', None))))
+    # a download notices the cancellation between two chunks of the response body: once the cancel call has returned, at most the
+    # read in flight and the one begun right behind a check that had just passed may still be made on a response
+    if ce and targeted and x.kind == 'download':
+        late = [e for e in obs.events if e['kind'] == 'body.read' and e.get('label') == x.label and e['n'] > ce[0]['n'] and e.get('nbytes', 0) > 0]
+        by_call = {}
+        for e in late:
+            by_call.setdefault(e.get('call_id'), []).append(e)
+        worst = max(by_call.values(), key=len, default=[])
+        if len(worst) > 2:
+            out.append(V(f'{x.label}: {len(worst)} further reads ({sum(e["nbytes"] for e in worst)} bytes) of the response body of {worst[0].get("key")} were '
+                         f'made after the cancel call ({how}) had returned', **mech, sym='body-read-after-cancel',
                          bandwidth_limited=bool(getattr(obs.config, 'max_bandwidth', None))))
     if not_started:
         s3 = [e for e in obs.events if e['kind'] == 'api.begin' and e.get('label') == x.label]
